@@ -23,7 +23,7 @@ type Trigger struct {
 	Proc string `json:"proc"` // process name ("" = any)
 	Key  string `json:"key"`  // site name or event key (prefix match if it ends in '*')
 	Occ  int    `json:"occ"`  // 1-based occurrence
-	Act  string `json:"act"`  // kill | exit:<code> | stop | cont:<proc> | panic | sleep:<ns> | killproc:<name> | stopproc:<name>
+	Act  string `json:"act"`  // kill | exit:<code> | stop | cont:<proc> | panic | sleep:<ns> | killproc:<name> | killprocsleep:<name>:<ns> | callsleep:<callback>:<ns> | stopproc:<name>
 	hits int
 	done bool
 }
@@ -230,6 +230,8 @@ type World struct {
 	stalls     []stall       // stalls not yet folded into Injected
 
 	Hooks []func(ev *Event) // oracles observing kernel events while the run proceeds
+	// Callbacks are actions of the run that a trigger can invoke (act callsleep).
+	Callbacks map[string]func()
 	// OnPipeWrite observes every write to a pipe before it is queued (raw
 	// stdout/stderr taps); it runs on the writer's goroutine.
 	OnPipeWrite func(pipe string, p *Proc, data []byte)
@@ -608,6 +610,36 @@ func (w *World) fire(t *Trigger, p *Proc) {
 	case "killproc":
 		if q := w.ProcByName(arg); q != nil {
 			q.Crash(137, "killed by trigger at "+t.Key)
+		}
+	case "killprocsleep":
+		// killprocsleep:<name>:<ns>: another process dies exactly while the
+		// goroutine that passes here is at this statement - and stays there
+		// for a while, so that everybody else sees the death first
+		name, nsS, _ := strings.Cut(arg, ":")
+		var ns int64
+		fmt.Sscanf(nsS, "%d", &ns)
+		if q := w.ProcByName(name); q != nil {
+			q.Crash(137, "killed by trigger at "+t.Key)
+		}
+		w.addInjected(time.Duration(ns))
+		time.Sleep(time.Duration(ns))
+		if p != nil && Cur() == p {
+			p.gate()
+		}
+	case "callsleep":
+		// callsleep:<name>:<ns>: the run's callback <name> (e.g. "another
+		// goroutine calls Kill now") is invoked exactly while the goroutine
+		// that passes here is at this statement, which then stays there for ns
+		name, nsS, _ := strings.Cut(arg, ":")
+		var ns int64
+		fmt.Sscanf(nsS, "%d", &ns)
+		if f := w.Callbacks[name]; f != nil {
+			f()
+		}
+		w.addInjected(time.Duration(ns))
+		time.Sleep(time.Duration(ns))
+		if p != nil && Cur() == p {
+			p.gate()
 		}
 	case "stopproc":
 		if q := w.ProcByName(arg); q != nil {
